@@ -92,6 +92,16 @@ CHECKS = {
   "All transactions of 1..3 recipients (refused at RCPT / ok / refused after DATA) are combined into sequences of 1..3 transactions per connection, with LMTPData+callback, LMTPData(nil) and Data(), with and without Reset in between; the callback sequence of every transaction must equal the accepted recipients with their own unique-token statuses, Close must return (a client parked in Close while the server waits for a command is reported from the transport state), a refusal without callback must come back from Close, and the connection must still be in step afterwards (NOOP, QUIT).",
   "Exhaustive for single transactions; pairs and triples are sampled in the quick tier.",
   "DESIGN.md section 5 C18"),
+ "C14": ("exploration",
+  "runtime monitoring: real client to real server round trip; field-wise comparison at the recording backend; refusals attributed to encoding only inside the stated value domain",
+  "Every Unicode scalar value (quick: all up to U+07FF, all class boundaries, every 257th above; thorough: all) is placed in ORCPT(utf-8) against servers with and without SMTPUTF8 (unitext vs xtext form), every 7-bit value in ENVID / ORCPT(rfc822) / AUTH, all short strings over thirteen encoding-significant characters in every string option, all NOTIFY sets and orders, RET, SIZE up to 2^62, RRVS times with zones and sub-second parts, and all option-presence subsets; values accepted by the client API must arrive identically, and a server refusal of an in-domain value is an encoding fault.",
+  "MailOptions.Body not judged; quoted local-parts may arrive unquoted; control characters are judged for silent corruption only.",
+  "DESIGN.md section 5 C14"),
+ "C15": ("exploration",
+  "runtime monitoring: per-API-call segmentation of the raw client->server tap against a scripted server; parameter keywords vs the most recent EHLO reply",
+  "A scripted peer advertises each of the 128 subsets of seven extensions (a different one after Reset); MAIL/RCPT option subsets are issued and the keywords on the wire must belong to extensions in the most recent EHLO reply, REQUIRETLS/SMTPUTF8 not offered must be a local error with nothing written; all short strings over {CR, LF, NUL, SP, <, >, a} and a few long/smuggling values are passed in thirteen string-typed arguments and every transport write of the call and of the following call must be exactly one CRLF-terminated line.",
+  "Relies on the client flushing once per command; the message body is exempt from the one-line rule.",
+  "DESIGN.md section 5 C15"),
 }
 
 NOT_APPLICABLE = {
